@@ -14,6 +14,7 @@ import Psa.Driver.GatesIO
 import Psa.Driver.EvIO
 import Psa.Driver.EncIO
 import Psa.Driver.RegIO
+import Psa.Driver.EncJsonIO
 namespace Psa.Driver
 open Psa
 
@@ -84,6 +85,8 @@ def runLine (l : String) : String :=
       | "synth" => opSynth args
       | "pop" => opPop args
       | "omap" => opOmap args
+      | "serj" => opSerJ args
+      | "popj" => opPopJ args
       | "reg" => opReg args
       | "dispatch-cbor" => opDispatchCbor args
       | "dispatch-json" => opDispatchJson args
